@@ -3,8 +3,8 @@ interrupted in every `ExpressionState` it passes through in `eval_expr` (src/eva
 
 Each entry: (stable name, definitions sent in a first request, expressions sent in the interrupted request).
 Definitions are loaded without any interpreter step, so the step counter of the job counts only the second request.
-The last top-level expression is never a bare `for` loop: a JSON-session `run` request stops a trailing `for` after
-entering its first iteration (stop_at_expr_id special case), which is not an interrupt and not this property.
+Most programs end in a plain value; `for-last-expr*` end in a bare `for` loop (a session `run` request used to stop
+such a loop after entering its first iteration; the check's run-vs-session comparison covers that).
 """
 
 DEFS = """struct Pt { x: Int, y: Int }
@@ -89,6 +89,8 @@ PROGRAMS = [
     ("for-in-while", "", 'let i = 0\nwhile i < 2 { for x in [1, 2] { print(string_repr(x + i)) } i += 1 }\ni'),
     ("for-range", "", "let s = 0\nfor x in range(0, 3) { s += x }\ns"),
     ("for-value-unused-last-in-fun", DEFS, "first_big([1, 2, 3])"),
+    ("for-last-expr", "", 'for x in [1, 2] { print(string_repr(x)) }'),
+    ("for-last-expr-nested", "", 'let n = 0\nfor x in [1, 2] { for y in [1, 2] { n += x * y } print(string_repr(n)) }'),
     # ---- match
     ("match-some", "", "match Some(5) { Some(x) => x + 1 None => 0 }"),
     ("match-none", "", 'match None { Some(x) => x None => { println("none") 0 } }'),
